@@ -21,6 +21,7 @@ func TestProp(t *testing.T) {
 	addLabels(r)
 	addProm(r)
 	addTraces(r)
+	addPortions(r)
 	addProf(r)
 	addTail(r)
 	r.Main()
